@@ -204,6 +204,13 @@ def run(seed=0, tier='quick', hints=None, broken=False):
         check_crop_and_pad_keep(case, viol)
         evals += 1
         seen.add(('CropAndPad-keep', tuple(axes)))
+    for rep in range(1 if tier == 'quick' else 12):
+        for c in S.crop_and_pad_sweep(rng):          # keep_size=False: a lattice map, every axis pattern once
+            shape = tuple(rng.sample([5, 6, 7, 8, 9, 10], 3))
+            case = {'shape': list(shape), 'keypoints': S.random_kps(rng, shape), 'seed': R.pick_seed(rng)}
+            check_lattice('CropAndPad', [c], case, viol)
+            evals += 1
+            seen.add(('CropAndPad-sweep', repr(c['args'].get('px', c['args'].get('percent')))))
     # free rotations (Rotate, ShiftScaleRotate): annotations vs the affine map fitted to marked voxels
     for _ in range(n * 2):
         case = RC.gen_case(rng)
